@@ -10,6 +10,20 @@ BASELINE_OFF = ("cd /repo && env -u CNES_PANDORA_VERIF /venv/bin/python -m pytes
 
 # id -> (technique, level text, level note, design ref)
 CLAIMED = {
+    "C01": (
+        "Exhaustive enumeration of step sequences vs. the documented DFA; Hypothesis-generated pipelines and check/run histories vs. a run-trace model",
+        "Exploration with an exhaustive sub-space: every sequence of the ten step kinds up to length 4 (quick) / 5 "
+        "(thorough), in two suffix styles, is submitted to PandoraMachine.check_conf with valid parameters and compared "
+        "with the three-state automaton (acceptance, sequencing error, machine back in 'begin' with no transitions, "
+        "second check identical). Generated legal pipelines (random parameters, suffixes, stub plugins, 1-3 scales) are "
+        "checked and run along generated histories of check/run calls on one machine; the recorded execution trace "
+        "(step, scale) must equal the model trace, products must exist on the documented sides, repeated operations "
+        "must behave identically, and single-edit mutants that leave the automaton must be rejected with a sequencing "
+        "error before anything runs.",
+        "Trusted: pbt/ref/automaton.py (three states, ten transitions, from sequencing.rst) and the trace model in "
+        "pbt/props/c01.py. Plugin steps are exercised through identity stubs.",
+        "DESIGN.md §5 C01",
+    ),
     "C15": (
         "Hypothesis-generated pairs and pipelines around a multiscale step; harness-side observation of every step vs. coarse-to-fine reference rule",
         "Exploration: generated pairs (mono/multiband, masks), num_scales 2-3, scale_factor 2-3, marge 0-2, divisible "
